@@ -430,6 +430,25 @@ def dispatch(ctx, col):
           "    case '.v3dpbd':\n        return V3dpbdImageStack(fname, **kwargs)\n    case '.v3draw':\n        return V3drawImageStack(fname, **kwargs)\n"
           "    case '.npy':\n        return NDArrayImageStack(np.load(fname), **kwargs)"], "rd:match"),
         ("anything else is rejected", ["raise ValueError('unsupported image stack')"], "rd:else")], fixed=("fname", "kwargs"))
+    # sibling agreement: every reader the dispatcher can return receives the requested dtype
+    col.rule("R-DISPATCH", "every reader read_imgs can return is given the requested dtype: each returned `<X>ImageStack(...)` call carries `dtype=` or the `**kwargs` in which the "
+             "function keeps it (kwargs.setdefault('dtype', ...)); a branch without it returns the stored values unconverted and unscaled", floor=1)
+    named = "dtype" in d.params
+    kw_holds = any(isinstance(c, ast.Call) and norm_src(c.func) == "kwargs.setdefault" and c.args and isinstance(c.args[0], ast.Constant) and c.args[0].value == "dtype" for c in own_nodes(d)) \
+        or any(isinstance(a, ast.Assign) and norm_src(a.targets[0]) in ("kwargs['dtype']", 'kwargs["dtype"]') for a in own_nodes(d))
+    rets = [r for r in own_nodes(d) if isinstance(r, ast.Return) and isinstance(r.value, ast.Call) and (dotted(r.value.func) or "").endswith("ImageStack")]
+    if not (named or kw_holds) or not rets:
+        col.unresolved("R-DISPATCH", d.qualname, d.loc(), "the requested dtype reaches every reader", "neither a `dtype` parameter nor kwargs.setdefault('dtype', ...) found, or no reader is returned",
+                       stmt="dispatch")
+    for r in rets:
+        c = r.value
+        has_kw = any(k.arg == "dtype" for k in c.keywords)
+        has_star = any(k.arg is None and isinstance(k.value, ast.Name) and k.value.id == "kwargs" for k in c.keywords)
+        ok_ = has_kw or (kw_holds and has_star)
+        if named or kw_holds:
+            col.check(ok_, "R-DISPATCH", d.qualname, d.loc(r), f"{norm_src(c.func)} receives the requested dtype", norm_src(c)[:80],
+                      f"`{norm_src(c)[:90]}` passes neither `dtype=` nor a `**kwargs` that holds it: a stack stored in this format comes back in its stored dtype, "
+                      f"unscaled (a uint8 file read with the default dtype stays 0..255 uint8 instead of float32 in [0, 1])", stmt=f"dispatch:{norm_src(c.func)}", definite=True)
     t = repo.get_def(f"{IO}.TiffImageStack.__init__")
     col.text_group("R-AXES", t.qualname, t, [
         ("the file is opened and its first series decoded on every construction", ["with tifffile.TiffFile(fname, **kwargs) as f:\n    s = f.series[0]\n    imgs, axes = s.asarray(), s.axes"], "rd:tiff"),
